@@ -27,11 +27,27 @@ def sh(cmd, timeout=None, env=None, cwd=None, check=True, capture=True):
     e.update({"CARGO_NET_OFFLINE": "true", "GV_TMP": os.path.join(OUT, "tmp")})
     if env:
         e.update(env)
+    # every command runs in its own process group, and the whole group is killed when the command has ended or timed
+    # out: tlapm leaves z3 back ends behind that spin forever, and a timed-out TLC must not survive its check
+    import signal
+    proc = subprocess.Popen(cmd, cwd=cwd, env=e, stdout=subprocess.PIPE if capture else None,
+                            stderr=subprocess.STDOUT if capture else None, text=True, errors="replace",
+                            start_new_session=True)
     try:
-        p = subprocess.run(cmd, cwd=cwd, env=e, timeout=timeout, stdout=subprocess.PIPE if capture else None,
-                           stderr=subprocess.STDOUT if capture else None, text=True, errors="replace")
+        out, _ = proc.communicate(timeout=timeout)
     except subprocess.TimeoutExpired:
+        try:
+            os.killpg(proc.pid, signal.SIGKILL)
+        except OSError:
+            pass
+        proc.wait()
         raise ToolError("timeout: %s" % " ".join(cmd[:6]))
+    finally:
+        try:
+            os.killpg(proc.pid, signal.SIGKILL)
+        except OSError:
+            pass
+    p = subprocess.CompletedProcess(cmd, proc.returncode, out, None)
     if check and p.returncode != 0:
         raise ToolError("command failed (%d): %s\n%s" % (p.returncode, " ".join(cmd[:8]), (p.stdout or "")[-3000:]))
     return p
